@@ -25,13 +25,18 @@ open StVerif StVerif.Pool StVerif.StrPool StVerif.Sched
 
 /-! ### the premise, tied to the source by regeneration -/
 
-/-- **no hidden shared mutable state**: every variable with static or thread storage duration that the library's
-    headers declare (namespace scope, static data members, function-local statics; regenerated from the clang AST
-    on every run) is immutable. -/
-theorem statics_immutable : ∀ v ∈ Generated.statics, v.isConst = true := by decide
+/-- **no hidden shared mutable state**: every variable with static storage duration that the library's headers declare
+    (namespace scope, static data members, function-local statics; regenerated from the clang AST on every run) is
+    immutable.  A variable with *thread* storage duration is listed too, and accepted: it exists once per thread, so
+    it is part of that thread's private state and cannot carry anything from one thread to another. -/
+theorem statics_immutable :
+    Generated.mutableStatics = [] ∧ ∀ v ∈ Generated.statics, v.isConst = true ∨ v.threadLocal = true := by
+  constructor
+  · unfold Generated.mutableStatics; decide     -- (unfolded first, so that a failure names the offending variables)
+  · decide
 
 /-- every external function the headers reference is inside the allow-list of functions documented MT-Safe -/
-theorem unsafe_calls_empty : Generated.unsafeCalls = [] := by decide
+theorem unsafe_calls_empty : Generated.unsafeCalls = [] := by unfold Generated.unsafeCalls; decide
 
 /-! ### one operation -/
 
@@ -184,11 +189,11 @@ theorem never_faults (part : Part) (s : Tid) (p : Pool) (top : TOp) (hG : Good p
     and every shared object is bit-identical afterwards.  (The two inventory conjuncts are `decide` over the regenerated
     lists: when the source grows a mutable static this theorem, and with it the check, stops holding.) -/
 theorem no_locking_needed :
-    (∀ v ∈ Generated.statics, v.isConst = true) ∧ Generated.unsafeCalls = [] ∧
+    (∀ v ∈ Generated.statics, v.isConst = true ∨ v.threadLocal = true) ∧ Generated.unsafeCalls = [] ∧
     ∀ (part : Part) (t : Tid) (sched : List Tid) (c : Config), Good c.pool →
       (run part sched c).trace t = (run part (alone t sched) c).trace t ∧
       ∀ x, part x = .shared → (run part sched c).pool.objs x = c.pool.objs x ∧ view (run part sched c).pool x = view c.pool x :=
-  ⟨statics_immutable, unsafe_calls_empty, fun part t sched c hG =>
+  ⟨statics_immutable.2, unsafe_calls_empty, fun part t sched c hG =>
     ⟨schedule_independent part t sched c hG, fun x hx => shared_unchanged part sched c hG x hx⟩⟩
 
 /-! ### the hypotheses are satisfiable, the quantifiers are not vacuous -/
